@@ -45,6 +45,8 @@ const (
 	oStatusConflict             // the status write may hit a conflict (and is then retried)
 	oBase8                      // ordinals 0..7 hold healthy up-to-date pods; the symbolic part of the world starts at ordinal 8
 	oWildSlots                  // delete-slot values are arbitrary int32 (negative, extreme, duplicates)
+	oStalePods                  // a pod may exist on the API server without being in the informer cache yet
+	oDeleteGone                 // a pod delete may find the pod already gone (stale cache): NotFound
 )
 
 type vPodInfo struct {
@@ -62,6 +64,7 @@ type vSnap struct {
 	cur, upd *kubeapps.ControllerRevision
 	names    map[string]string // revision name -> stable label for traces
 	pods     []*vPodInfo
+	hidden   []*vPodInfo // pods on the API server that the caches do not show yet
 	r        int32
 	slots    []int32
 	base     int    // ordinals below base are concrete healthy desired pods
@@ -252,6 +255,13 @@ func vBuildSnap(N, R, K, opts int) *vSnap {
 		}
 		setPodRevision(pod, pi.rev)
 		pi.pod = pod
+		if opts&oStalePods != 0 && sym.Pick("stale", 2) == 1 {
+			// created a moment ago: on the server, not yet in the cache the reconcile reads
+			w.apiPods = append(w.apiPods, pod.DeepCopy())
+			s.hidden = append(s.hidden, pi)
+			sym.Cover("a pod exists on the server but not in the cache")
+			continue
+		}
 		s.pods = append(s.pods, pi)
 		w.pods = append(w.pods, pod)
 		w.apiPods = append(w.apiPods, pod.DeepCopy())
@@ -265,6 +275,9 @@ func vBuildSnap(N, R, K, opts int) *vSnap {
 	s.names[vSetName+"-other"] = "rev(other)"
 	if opts&oFaults != 0 {
 		w.faultBudget, w.faultKinds = 1, 1
+	}
+	if opts&oDeleteGone != 0 {
+		w.faultBudget, w.faultKinds, w.faultOnly, w.faultKind = 1, 1, "pod.delete", 2
 	}
 	if opts&oStatusConflict != 0 {
 		w.faultBudget, w.faultKinds, w.faultOnly = 1, 2, "set.updateStatus"
